@@ -66,9 +66,11 @@ func cmdVerify(args []string) {
 		fmt.Fprintln(os.Stderr, err)
 		os.Exit(2)
 	}
-	if err := e.loadSpecDir("/verif/specs"); err != nil {
-		fmt.Fprintln(os.Stderr, err)
-		os.Exit(2)
+	for _, d := range []string{"/verif/specs", "/verif/trusted"} {
+		if err := e.loadSpecDir(d); err != nil {
+			fmt.Fprintln(os.Stderr, err)
+			os.Exit(2)
+		}
 	}
 	fmt.Printf("loaded in %.1fs; %d contracts\n", time.Since(t0).Seconds(), len(e.cs.Funcs))
 	var keys []string
